@@ -57,7 +57,11 @@ inductive Via where
   | membersRole (role : List Nat)     -- `group.sum(group.members(dep, period), role=ROLE)`
   | nbPersons (role : List Nat)       -- `group.nb_persons(role=ROLE)` (no dependency)
   | hasRole (g : Nat) (role : List Nat)   -- `person.has_role(ROLE)`, `ROLE` a role of group entity `g` (no dependency)
+  | param                             -- `parameters(period).p0` in a three-argument formula (no dependency)
 deriving DecidableEq, Repr
+
+/-- the value of the one parameter of the generated systems (parameters are C06/C07's subject) -/
+def paramValue : Int := 7
 
 /-- A role argument is the list of *flattened* role indices a member may hold to satisfy it (a role with
 sub-roles is satisfied by any of them).  The role table used throughout the correspondence: `r0` with
@@ -81,6 +85,7 @@ structure VarDecl where
   defPeriod : DUnit
   dflt : Int
   formula : Option (Int × List Term)    -- constant + Σ coef · term
+  blacklisted : Bool := false           -- listed in `tax_benefit_system.cache_blacklist`
 deriving Repr
 
 abbrev Sys := List VarDecl
@@ -112,6 +117,7 @@ structure HolderObj where
   sim : Id
   mem : Id
   disk : Option Id
+  noStore : Bool             -- `_do_not_store` (the variable is in `memory_config.variables_to_drop`)
 deriving DecidableEq, Repr
 
 structure PopObj where
@@ -123,6 +129,7 @@ structure PopObj where
   members : Option Id
   membersEntityId : List Nat
   membersRole : Option (List Nat)    -- `_members_role`: `None`, or the flattened role of each person
+  membersPosition : Option (List Nat)   -- `_members_position`: `None`, or the assigned position of each person
 deriving DecidableEq, Repr
 
 structure TracerObj where
@@ -131,9 +138,10 @@ structure TracerObj where
   roots : List Key          -- `FullTracer.trees` (name and period of each root)
 deriving DecidableEq, Repr
 
-/-- `MemoryConfig(max_memory_occupation=0, priority_variables=…)` -/
+/-- `MemoryConfig(max_memory_occupation=0, priority_variables=…, variables_to_drop=…)` -/
 structure MemConfig where
   priority : List Var
+  drop : List Var := []
 deriving DecidableEq, Repr
 
 structure SimObj where
@@ -144,6 +152,9 @@ structure SimObj where
   trace : Bool
   memConfig : Option MemConfig
   dir : Option Id            -- `_data_storage_dir`
+  debug : Bool := false
+  optOut : Bool := false     -- `opt_out_cache`
+  msl : Nat := Generated.maxSpiralLoops    -- `max_spiral_loops`
 deriving DecidableEq, Repr
 
 inductive Obj where
@@ -366,7 +377,11 @@ def createHolder (sys : Sys) (r : Nat) (pid : Id) (v : Var) : HM (Id × HolderOb
   let mem ← new r (.store ⟨isEternal decl, []⟩)
   -- `self.simulation = population.simulation`; `self.simulation.memory_config`
   let disk ← createDisk r po.sim v (isEternal decl)
-  let ho : HolderObj := ⟨v, pid, po.sim, mem, disk⟩
+  let so ← rdSim po.sim
+  let noStore := match so.memConfig with
+    | none => false
+    | some mc => decide (v ∈ mc.drop)
+  let ho : HolderObj := ⟨v, pid, po.sim, mem, disk, noStore⟩
   let hid ← new r (.holder ho)
   let po ← rdPop pid
   wr pid (.pop { po with holders := po.holders ++ [(v, hid)] })
@@ -439,6 +454,15 @@ def holderSet (sys : Sys) (ho : HolderObj) (p : Period) (v : Vec) : HM Unit := d
       | none => fail .bad
       | some _ => diskInsert did v p
 
+/-- `Holder.put_in_cache`: nothing is stored for a dropped variable, nor — when the simulation opts out —
+for a variable of the system's cache blacklist -/
+def putInCache (sys : Sys) (ho : HolderObj) (p : Period) (v : Vec) : HM Unit :=
+  if ho.noStore then pure () else do
+  let so ← rdSim ho.sim
+  let decl ← varDecl sys ho.var
+  if so.optOut ∧ decl.blacklisted then pure () else
+  holderSet sys ho p v
+
 /-- `Holder.delete_arrays` -/
 def holderDelete (ho : HolderObj) (p : Option Period) : HM Unit := do
   let st ← rdStore ho.mem
@@ -463,6 +487,14 @@ def setInput (sys : Sys) (x : Id) (v : Var) (p : Period) (a : Vec) : HM Unit := 
   if p.unit = .eternity ∧ !isEternal decl then fail .value else
   holderSet sys ho p a
 
+/-- `set_input` with values that `astype(variable.dtype)` refuses: the holder is made, the period is
+checked, `_to_array` raises -/
+def setInputBad (sys : Sys) (x : Id) (v : Var) (p : Period) : HM Unit := do
+  let decl ← varDecl sys v
+  let _ ← getHolder sys x v
+  if p.unit = .eternity ∧ !isEternal decl then fail .value else
+  fail .value
+
 /-- `Simulation.delete_arrays` -/
 def deleteArrays (sys : Sys) (x : Id) (v : Var) (p : Option Period) : HM Unit := do
   let (_, ho) ← getHolder sys x v
@@ -473,8 +505,6 @@ def setTrace (x : Id) (b : Bool) : HM Unit := do
   let t ← new x.reg (.tracer ⟨b, [], []⟩)
   let so ← rdSim x
   wr x (.sim { so with trace := b, tracer := t })
-
-def maxSpiralLoops : Nat := Generated.maxSpiralLoops
 
 /-- `_check_period_consistency` -/
 def periodConsistent (decl : VarDecl) (p : Period) : Bool :=
@@ -487,12 +517,12 @@ def periodConsistent (decl : VarDecl) (p : Period) : Bool :=
   else decide (p.size = 1)
 
 /-- frames marked by `invalidate_spiral_variables`, walking the stack from the most recent -/
-def spiralFrames (v : Var) : List Key → Nat → List Key
+def spiralFrames (msl : Nat) (v : Var) : List Key → Nat → List Key
   | [], _ => []
   | f :: rest, count =>
     if f.1 = v then
-      if count + 1 > maxSpiralLoops then [f] else f :: spiralFrames v rest (count + 1)
-    else f :: spiralFrames v rest count
+      if count + 1 > msl then [f] else f :: spiralFrames msl v rest (count + 1)
+    else f :: spiralFrames msl v rest count
 
 def addAll (inv : List Key) (ks : List Key) : List Key := ks.foldl insertNew inv
 
@@ -502,9 +532,9 @@ def checkForCycle (x : Id) (v : Var) (p : Period) : HM Unit := do
   let tr ← rdTracer so.tracer
   let previous := (tr.stack.dropLast.filter (fun f => f.1 = v)).map (fun f => f.2)
   if p ∈ previous then fail .cycle else
-  if previous.length ≥ maxSpiralLoops then do
+  if previous.length ≥ so.msl then do
     let inv ← rdInval so.inval
-    wr so.inval (.inval (addAll inv (spiralFrames v tr.stack.reverse 0)))
+    wr so.inval (.inval (addAll inv (spiralFrames so.msl v tr.stack.reverse 0)))
     fail .spiral
   else pure ()
 
@@ -554,6 +584,21 @@ def groupSum (membersEntityId : List Nat) (a : Vec) (count : Nat) : Vec :=
 again, so the assignment is not observable and is not modelled as a write) -/
 def PopObj.roles (po : PopObj) : List Nat :=
   po.membersRole.getD (List.replicate po.membersEntityId.length 0)
+
+/-- position of each person among the members of its group, in order of appearance -/
+def appearancePositions (mei : List Nat) : List Nat :=
+  (List.range mei.length).map (fun k => ((mei.take k).filter (fun g => some g = mei[k]?)).length)
+
+/-- `GroupPopulation.members_position`: the assigned positions, else the order of appearance (cached like
+the default roles) -/
+def PopObj.positions (po : PopObj) : List Nat :=
+  po.membersPosition.getD (appearancePositions po.membersEntityId)
+
+/-- `GroupPopulation.ordered_members_map`: `numpy.argsort(members_entity_id)` (insertion sort on the short
+arrays of the correspondence: stable) -/
+def PopObj.orderedMap (po : PopObj) : List Nat :=
+  (List.range po.membersEntityId.length).mergeSort
+    (fun i j => decide (po.membersEntityId[i]?.getD 0 ≤ po.membersEntityId[j]?.getD 0))
 
 /-- `members_role == role`, or the disjunction over the sub-roles -/
 def roleBits (roles : List Nat) (role : List Nat) : List Bool := roles.map (fun r => role.contains r)
@@ -620,6 +665,7 @@ def evalTerm (sys : Sys) (rec : Id → Var → Period → HM Vec) (pid : Id) (en
     let gid ← ofOption .value (alGet so.pops g)
     let go ← rdPop gid
     pure ((roleBits go.roles role).map (fun b => if b then 1 else 0))
+  | .param => pure (List.replicate po.count paramValue)
 
 def evalTerms (sys : Sys) (rec : Id → Var → Period → HM Vec) (pid : Id) (ent : Nat) (p : Period) :
     List Term → Vec → HM Vec
@@ -645,7 +691,7 @@ def computeAndStore (sys : Sys) (rec : Id → Var → Period → HM Vec) (x : Id
     (decl : VarDecl) (pid : Id) (ho : HolderObj) : HM Vec := do
   checkForCycle x v p
   let a ← formulaValue sys rec p decl pid ho
-  holderSet sys ho p a
+  putInCache sys ho p a
   pure a
 
 /-- repair C02a: a hit on an entry awaiting deletion taints the calculations in progress -/
@@ -702,6 +748,7 @@ inductive Op where
   | calculateAdd (v : Var) (p : Period)
   | setTrace (b : Bool)
   | touch (v : Var)          -- `simulation.get_holder(v)`
+  | setBad (v : Var) (p : Period)   -- `set_input` with an array of the right length whose dtype cannot be cast
 deriving Repr
 
 /-- what a call returns -/
@@ -722,6 +769,7 @@ def step (sys : Sys) (fuel : Nat) (x : Id) : Op → HM Out
     | none => pure .zero
   | .setTrace b => do setTrace x b; pure .done
   | .touch v => do let _ ← getHolder sys x v; pure .done
+  | .setBad v p => do setInputBad sys x v p; pure .done
 
 /-! ## observations of one simulation -/
 
@@ -740,11 +788,16 @@ structure PopObs where
   ids : List Nat
   membersEntityId : List Nat
   roles : List Nat                     -- `members_role` (flattened role of each person)
+  positions : List Nat                 -- `members_position`
+  orderedMap : List Nat                -- `ordered_members_map`
   roleCounts : List (List Int)         -- `nb_persons(role)` for every role of `stdRoles`
   holders : List HolderObs
 deriving DecidableEq, Repr
 
 structure Obs where
+  debug : Bool
+  optOut : Bool
+  msl : Nat
   trace : Bool
   full : Bool
   roots : List Key
@@ -764,7 +817,7 @@ def observePop (x persons : Id) (e : Nat × Id) : HM PopObs := do
   let hs ← mapMH (observeHolder x e.2) po.holders
   pure ⟨po.entity, decide (po.sim = x),
     (match po.members with | none => true | some m => decide (m = persons)),
-    po.count, po.ids, po.membersEntityId, po.roles,
+    po.count, po.ids, po.membersEntityId, po.roles, po.positions, po.orderedMap,
     stdRoles.map (fun role =>
       groupSum po.membersEntityId ((roleBits po.roles role).map (fun b => if b then 1 else 0)) po.count),
     hs⟩
@@ -774,7 +827,8 @@ def observe (x : Id) : HM Obs := do
   let tr ← rdTracer so.tracer
   let inv ← rdInval so.inval
   let pops ← mapMH (observePop x so.persons) so.pops
-  pure ⟨so.trace, tr.full, tr.roots, tr.stack, inv, decide (alGet so.pops 0 = some so.persons), pops⟩
+  pure ⟨so.debug, so.optOut, so.msl, so.trace, tr.full, tr.roots, tr.stack, inv,
+    decide (alGet so.pops 0 = some so.persons), pops⟩
 
 /-- `simulation.get_array(v, p)` without creating the holder (`none` = no value) -/
 def readValue (sys : Sys) (x : Id) (v : Var) (p : Period) : HM (Option Vec) := do
@@ -801,11 +855,17 @@ def readKnown (sys : Sys) (x : Id) (v : Var) : HM (List Period) := do
   | none => pure []
 
 /-- entity structure of one population: count, ids, memberships, which variables have a holder -/
-def readStructure (x : Id) (ent : Nat) : HM (Nat × List Nat × List Nat × List Nat × List Var) := do
+def readStructure (x : Id) (ent : Nat) :
+    HM (Nat × List Nat × List Nat × List Nat × List Nat × List Nat × List Var) := do
   let so ← rdSim x
   let pid ← ofOption .value (alGet so.pops ent)
   let po ← rdPop pid
-  pure (po.count, po.ids, po.membersEntityId, po.roles, po.holders.map (fun e => e.1))
+  pure (po.count, po.ids, po.membersEntityId, po.roles, po.positions, po.orderedMap, po.holders.map (fun e => e.1))
+
+/-- the configuration a simulation calculates with: `opt_out_cache`, `max_spiral_loops`, `memory_config` -/
+def readConfig (x : Id) : HM (Bool × Nat × Option MemConfig) := do
+  let so ← rdSim x
+  pure (so.optOut, so.msl, so.memConfig)
 
 /-- `simulation.populations[ent].nb_persons(role=ROLE)` -/
 def roleCount (x : Id) (ent : Nat) (role : List Nat) : HM Vec := do
@@ -871,9 +931,10 @@ def cloneGroups (rc : Nat) (newSim : Id) : List (Nat × Id) → HM (List (Nat ×
     pure ((k, pid') :: rest')
 
 /-- `Simulation.clone(trace=…)`: `empty_clone` + every attribute by reference except
-`debug/trace/tracer`; then `persons`, `populations` and the group populations are replaced by
-clones; `new.trace = trace` installs a new tracer; repair C13c: a new `invalidated_caches` -/
-def cloneSim (s : Id) (trace : Bool) : HM Id := do
+`debug/trace/tracer` (so `opt_out_cache`, `max_spiral_loops`, `memory_config`, `_data_storage_dir` are
+the original's); then `persons`, `populations` and the group populations are replaced by clones;
+`new.debug = debug`, `new.trace = trace` installs a new tracer; repair C13c: a new `invalidated_caches` -/
+def cloneSim (s : Id) (trace : Bool) (debug : Bool) : HM Id := do
   let so ← rdSim s
   let rc ← newRegion
   let c ← new rc (.sim so)
@@ -884,7 +945,7 @@ def cloneSim (s : Id) (trace : Bool) : HM Id := do
   let groups' ← cloneGroups rc c (so.pops.filter (fun e => e.1 ≠ 0))
   let tr ← new rc (.tracer ⟨trace, [], []⟩)
   let ns ← rdSim c
-  wr c (.sim { ns with pops := (0, persons') :: groups', tracer := tr, trace := trace })
+  wr c (.sim { ns with pops := (0, persons') :: groups', tracer := tr, trace := trace, debug := debug })
   pure c
 
 /-! ## construction of a simulation from a description (driver and examples) -/
@@ -894,18 +955,21 @@ structure GroupSpec where
   count : Nat
   membersEntityId : List Nat
   roles : Option (List Nat)      -- `members_role` assigned at construction, or never
+  positions : Option (List Nat) := none   -- `members_position` assigned at construction, or never
 deriving Repr
 
 structure SimSpec where
   persons : Nat
   groups : List GroupSpec
   memConfig : Option MemConfig
+  optOut : Bool := false
+  msl : Nat := Generated.maxSpiralLoops
 deriving Repr
 
 def buildGroups (r : Nat) (s persons : Id) : List GroupSpec → HM (List (Nat × Id))
   | [] => pure []
   | g :: rest => do
-    let pid ← new r (.pop ⟨g.entity, s, [], g.count, List.range g.count, some persons, g.membersEntityId, g.roles⟩)
+    let pid ← new r (.pop ⟨g.entity, s, [], g.count, List.range g.count, some persons, g.membersEntityId, g.roles, g.positions⟩)
     let rest' ← buildGroups r s persons rest
     pure ((g.entity, pid) :: rest')
 
@@ -913,12 +977,12 @@ def buildGroups (r : Nat) (s persons : Id) : List GroupSpec → HM (List (Nat ×
 def build (spec : SimSpec) : HM Id := do
   let r ← newRegion
   let self : Id := ⟨r, 0⟩
-  let s ← new r (.sim ⟨self, [], self, self, false, spec.memConfig, none⟩)
-  let persons ← new r (.pop ⟨0, s, [], spec.persons, List.range spec.persons, none, [], none⟩)
+  let s ← new r (.sim ⟨self, [], self, self, false, spec.memConfig, none, false, spec.optOut, spec.msl⟩)
+  let persons ← new r (.pop ⟨0, s, [], spec.persons, List.range spec.persons, none, [], none, none⟩)
   let groups ← buildGroups r s persons spec.groups
   let tr ← new r (.tracer ⟨false, [], []⟩)
   let inv ← new r (.inval [])
-  wr s (.sim ⟨persons, (0, persons) :: groups, tr, inv, false, spec.memConfig, none⟩)
+  wr s (.sim ⟨persons, (0, persons) :: groups, tr, inv, false, spec.memConfig, none, false, spec.optOut, spec.msl⟩)
   pure s
 
 /-! ## interleaved histories -/
